@@ -2,7 +2,7 @@
    front-end model: whatever satisfies the enforced rule is accepted by that step.  The
    composition over the whole pipeline (resolution of every reference, every backend) is not
    proved; it is decided by the correspondence on generated valid file sets (see DESIGN.md). *)
-Require Import Base Syntax Front Plan.
+Require Import Base Syntax Front Plan gen.CounterFacts.
 Require Import spec.Spec_C09 proofs.C09Proofs proofs.C10Proofs.
 Open Scope N_scope.
 
@@ -19,13 +19,26 @@ Theorem C10_params_complete_partial : forall main,
 Proof. exact functions_pass_complete. Qed.
 Print Assumptions C10_params_complete_partial.
 
-(* a parameter list that respects the object-array rules passes the interface verifier *)
+(* a parameter list that respects the rules the verifier enforces passes it *)
 Theorem C10_interface_rules_complete_partial : forall ps,
   forallb enforced_param_ok ps = true ->
   rule_no_objarr_with_single (map abs_param ps) = true ->
+  rule_no_two_objarr (map abs_param ps) = true ->
   check_params ps false false false false = Ok tt.
 Proof. exact interface_rules_complete. Qed.
 Print Assumptions C10_interface_rules_complete_partial.
+
+(* with the repaired verifier the enforced rules are exactly the five parameter-list rules of
+   the specification (Spec_C09.params_rules): whatever satisfies them is accepted *)
+Theorem C10_spec_rules_complete : verifier_rejects_second_objarr = true -> verifier_small_objstruct_in_array = true ->
+  forall ps, forallb (fun b => b) (params_rules (map abs_param ps)) = true ->
+  check_params ps false false false false = Ok tt.
+Proof. intros F1 F2 ps. unfold check_params. rewrite F1, F2. apply spec_rules_complete. Qed.
+Print Assumptions C10_spec_rules_complete.
+Theorem C10_spec_rules_complete_current : forall ps,
+  forallb (fun b => b) (params_rules (map abs_param ps)) = true -> check_params ps false false false false = Ok tt.
+Proof. exact (C10_spec_rules_complete eq_refl eq_refl). Qed.
+Print Assumptions C10_spec_rules_complete_current.
 
 (* a struct whose members sit on multiples of their alignment, whose size is a multiple of
    the largest alignment and below 2^64, with distinct field names, is accepted *)
@@ -39,5 +52,6 @@ Open Scope string_scope.
 Example C10_nonvacuous :
   let ps := [mkMP false (MIface None) (PArr (Some 3%N)) "a"; mkMP true (MIface None) PVal "o";
              mkMP false (MPrim U32) (PArr None) "xs"] in
-  forallb enforced_param_ok ps = true /\ rule_no_objarr_with_single (map abs_param ps) = true.
-Proof. split; vm_compute; reflexivity. Qed.
+  forallb enforced_param_ok ps = true /\ rule_no_objarr_with_single (map abs_param ps) = true /\
+  rule_no_two_objarr (map abs_param ps) = true /\ forallb (fun b => b) (params_rules (map abs_param ps)) = true.
+Proof. repeat split; vm_compute; reflexivity. Qed.
